@@ -11,6 +11,11 @@ CHECKS = {
         "Decides three structural clauses for every function that can hold a render entry's destination writer: (R1) every call receiving the writer propagates its error result to the entry's return; (R2) no fallible non-write call is reachable after the first possible write, and anything re-entered with the writer is a pure writer; (R3) every Template render method returns ctx.Err() before the first possible write. Together these are close to sufficient for 'error => nothing written' and 'writer failure => error' on the Template entry points.",
         "Not decided: that on a nil error the document is complete. Trusted: go/ssa, the VTA call graph, io/bytes/fmt standard-library write functions report failures through their error result.",
     ),
+    "C11": (
+        "unchecked-assertion origin analysis, reflect.Kind-set dataflow with call-site facts, index-bound and IsExported edge-dominance guards, call-graph SCC classification with depth-guard/visited-set recognition, who-may-call panic/Must*",
+        "Decides four families of panic / unbounded-recursion preconditions that are visible in the code, over every function of the module: (R1) unchecked type assertions are provably safe; (R2) every reflect call with a panic precondition is dominated by a guard that establishes it; (R3) every recursive cycle of the call graph walks a finite tree, or - for cycles through the template loader or through reflected data - carries an effective depth guard / visited set; (R5) no panic()/Must* on template or data values.",
+        "Not decided: index/slice bounds outside reflect, nil dereferences, division, panics inside dependencies or user-registered functions, termination of loops other than the recursion shapes above. Trusted: go/ssa, VTA call graph, the table of reflect preconditions in the checker.",
+    ),
 }
 
 PENDING_REASON = "check for this property is being built in this session (see DESIGN.md section 2 for the planned rules); not claimed until its rules run clean on the unchanged tree"
